@@ -125,7 +125,7 @@ WALKS = ["1qaz", "2wsx", "qwer", "asdf", "zxcv", "1q2w3e", "!QAZ", "zaq1", "xsw2
          "4rfv", "qwerty", "7ujm", "q1w2", "wsx2", "йцук", "1йфя", "фыва",
          "123;", "й123", "tyui", "ert5", "erty", "were", "poiu0", "098poi", "1qa", "qaz1qaz", ";lkj", "<>?:", "p0o9", "-=[]",
          "3edc", "edcv", "ty67", "e3w2", "y6t5", "1231q", "q123", "a123", "2123"]
-YEARS = ["2019", "1999", "2000", "1984", "2024", "19", "20", "192", "201", "20199", "12019", "2100", "19²٣", "1900", "2099"]
+YEARS = ["2019", "1999", "2000", "1984", "2024", "19", "20", "192", "201", "20199", "12019", "2100", "19²٣", "1900", "2099", "1812", "1899", "2119", "3019", "0019", "1066", "18", "21"]
 CONTEXT = [";p", ":p", "*0*", "#1", "No.1", "no.1", "No.", "i<3", "I<3", "<3", "Mr.", "mr.", "MR.", "MS.", "Ms.", "ms.",
            "Mz.", "mz.", "MZ.", "St.", "st.", "Dr.", "dr.", "#12", "#1a2", "#123", "#", "<", "no.", "NO.1", "*0"]
 WEB = ["www.", ".com", ".org", ".ru", ".uk", ".net", ".nl", ".se", ".nl.se", ".de", ".it", ".ch", ".mil", ".no", ".es", ".us", ".ca",
